@@ -459,7 +459,36 @@ def classify(facts, tn, f, bi, kind, t):
         if kind == "index" and all(scan_derived(tn, f, a) for a in args[1:]):
             return "index-scanned", "indexes buffered data with offsets obtained from scanning it (%s)" % sy.show(args[1])[:60]
         if kind == "BoundsCheck":
-            return "index-untainted", "array index is not a declared number (%s)" % sy.show(args[1])[:40]
+            ln, idx = args[0], args[1]
+            if idx[0] == "c":
+                return "index-untainted", "array index is not a declared number (%s)" % sy.show(idx)[:40]
+            # a variable index into an array or slice: some test in front of the access must bound it (a loop counter
+            # that is only ever incremented walks off the end -- the reader refills, so "few bytes are buffered" is no bound)
+            def bounds(fa):
+                if fa[0] != "cmp":
+                    return False
+                def lenform(x):
+                    # `PtrMetadata(s)` (the length MIR reads for a bounds check) and `s.len()` are the same number
+                    x = strip_bb(x)
+                    if x[0] == "un" and x[1] == "PtrMetadata":
+                        return ("len", x[2])
+                    if x[0] == "call" and x[2].rsplit("::", 1)[-1] == "len" and len(x[3]) == 1:
+                        return ("len", x[3][0])
+                    return x
+                op, a, b = fa[1], lenform(fa[2]), lenform(fa[3])
+                si, sl = strip_bb(idx), lenform(ln)
+                if a == si and op in ("Lt", "Le") and ((b == sl and op == "Lt") or (b[0] == "c" and ln[0] == "c" and isinstance(b[1], int) and b[1] + (1 if op == "Le" else 0) <= ln[1])):
+                    return True
+                if b == si and op in ("Gt", "Ge") and ((a == sl and op == "Gt") or (a[0] == "c" and ln[0] == "c" and isinstance(a[1], int) and a[1] + (1 if op == "Ge" else 0) <= ln[1])):
+                    return True
+                return False
+            g = guards.holds(f, bi, bounds)
+            if g:
+                return "index-guarded", "index %s is tested against the length in front of the access (%s)" % (sy.show(idx)[:30], guards.show_fact(f, g[1])[:50])
+            # an index handed in by array::from_fn / enumerate is below the length by construction
+            if f.kind == "Closure" and idx[0] == "l" and sy.is_arg(idx[1]):
+                return "index-by-construction", "index is the closure's own argument (from_fn / enumerate)"
+            return None, "index %s into a sequence of length %s is not bounded by any test in front of the access" % (sy.show(idx)[:40], sy.show(ln)[:30])
         return "index-untainted", "index is not a declared number (%s)" % sy.show(args[1])[:60]
     if kind.startswith("std:"):
         ps = panicky_std(norm(util.cname(t)))
